@@ -374,6 +374,13 @@ package action
 //@   ensures [cleanup-deletes-only-created] old(u.CleanupOnFail) && !old(u.Atomic) ==> Kdeleted == old(Kdeleted) || Kdeleted == store(old(Kdeleted), builtFrom(created), true)
 //@   loop 1 invariant Kdeleted == store(old(Kdeleted), builtFrom(created), true) && rel.Info.Status == "failed"
 
+// the revisions an atomic upgrade may roll back to: those that had been deployed (still marked
+// deployed, or superseded by a later successful operation) — never a failed or pending one
+//@ func (*Upgrade).failRelease$1
+//@   props C03
+//@   requires r != nil && r.Info != nil
+//@   ensures [rollback-candidates-are-the-revisions-that-had-been-deployed] result == (r.Info.Status == "superseded" || r.Info.Status == "deployed")
+
 //@ func NewRollback
 //@   props C03
 //@   ensures result != nil && fresh(result) && result.cfg == cfg && !result.DryRun
